@@ -568,9 +568,12 @@ def checkC08 (j : Json) : R Json := do
             else if ownOk.isEmpty then "bounded-but-column-fails-at-every-reported-choice"
             else if depOk.isEmpty then "bound-ignores-failing-dependency"
             else "bound-or-class-matches-no-valid-derivation"
-          -- is the loop infinite as a whole (no choice at which every column is failure-free)?
-          let loopInfinite := !(mats.any fun (_, m) => m.all fun row => row.all (· != .i))
-          return viol kind [("variable", Json.str name), ("loop_infinite", Json.bool loopInfinite),
+          -- does the variable depend (at a reported choice) on a variable whose column fails at EVERY
+          -- choice?  (that is what maybe_result's dependency test is there to exclude; a dependency on
+          -- a variable that fails only at the chosen vector is the known get_result defect)
+          let alwaysFails (u : Nat) : Bool := mats.all fun (_, m) => (Spec.SMat.column m u).any (· == .i)
+          let ancAlways := reported.any fun (_, m) => (Spec.ancestors m vi).any alwaysFails
+          return viol kind [("variable", Json.str name), ("ancestor_always_fails", Json.bool ancAlways),
             ("example_choice", match reported with | (c, _) :: _ => jList jNat c | [] => Json.null)]
     pure (ok (Json.mkObj [("supported", Json.bool true)]))
 
